@@ -43,6 +43,11 @@ CLAIMED = {
             "context {HTTP/1.1 keep-alive, pipelined, HTTP/2 with siblings, WebSocket on both carriers} x worker, plus seeded variation "
             "of segmentation/latency/body around the same product; the client-side parsers decide 500 / visibly incomplete / reset.",
             "HTTP/1.0 and close-delimited responses cannot signal truncation and are not generated; a response whose declared length was fully sent before the failure may parse as complete"),
+    "C09": ("5/C09", "Seeded search over 1..4 concurrent streams x initial windows {0,1,...} x schedules of WINDOW_UPDATE / SETTINGS window "
+            "and frame-size changes / PRIORITY / RST_STREAM, with the peer's own window ledger checking every DATA frame, a quiescent "
+            "snapshot for liveness (no stream with credit and data may be idle) and a final unlimited grant for completeness and order; "
+            "spinning is detected by the simulated selector.",
+            "SETTINGS bind the server from its ACK on (RFC 7540 6.5.3); applications produce all data at once"),
 }
 
 NOT_APPLICABLE = {
